@@ -42,6 +42,10 @@ def run(rec, cfg):
     W8b.two_parsers(rec, rng, corp, "C10", cfg.scale(6, 200))
     if cfg.shard == 2 % cfg.nshards:
         W8b.marathon(rec, rng, "C10")
+    if cfg.shard == 3 % cfg.nshards:
+        W8b.typed(rec, rng, W8b.TYPED_TEXTS)
+    if cfg.shard == 4 % cfg.nshards:
+        W8b.deep_under_default_limit(rec, "C10")
     seen = set()
 
     def one(s, parser=None):
